@@ -5,7 +5,9 @@
   the structured lowering model (`Model/LowerS.lean`) and the order
   specification were written against: calls on `self` in evaluation order,
   the iterator adaptors of the loops over arguments / fields / elements / arms,
-  `Value::…` and `Expr::BinOp` constructions, control-flow markers. Drop
+  `Value::…` and `Expr::BinOp` constructions, control-flow markers. Arguments
+  that are plain local names appear as `v0, v1, …` (order of first use), so a
+  consistent renaming of a local leaves the skeleton unchanged. Drop
   bookkeeping (C03's subject) is left out by the translator.
 
   A regrouped, reversed, dropped or duplicated step changes the generated
@@ -19,60 +21,60 @@ open RotoV.Gen
 
 /-- `binop`: the `==` / `!=` paths and the general path all run `expr l; assign_to_var l; expr r; assign_to_var r` — the left operand is materialised before the right one is lowered (`LowerS.lowerE`, case `.bin`); `&&`/`||` go to `shortcircuit_binop`. -/
 theorem source_binop : LowerOrder.binop = [
-  "if(*binop==ast::BinOp::Eq)",
-  "self.expr(l)",
-  "self.assign_to_var(left,l_ty)",
-  "self.expr(r)",
-  "self.assign_to_var(right,r_ty)",
-  "Value::BinOp{left,binop:ast::BinOp::Eq,ty:l_ty,right}",
+  "if",
+  "self.expr(v0)",
+  "self.assign_to_var(v1,v2)",
+  "self.expr(v3)",
+  "self.assign_to_var(v4,v5)",
+  "Value::BinOp{left:v1,binop:ast::BinOp::Eq,ty:v2,right:v4}",
   "return",
   "endif",
-  "if(*binop==ast::BinOp::Ne)",
-  "self.expr(l)",
-  "self.assign_to_var(left,l_ty)",
-  "self.expr(r)",
-  "self.assign_to_var(right,r_ty)",
-  "Value::BinOp{left,binop:ast::BinOp::Ne,ty:l_ty,right}",
+  "if",
+  "self.expr(v0)",
+  "self.assign_to_var(v1,v2)",
+  "self.expr(v3)",
+  "self.assign_to_var(v4,v5)",
+  "Value::BinOp{left:v1,binop:ast::BinOp::Ne,ty:v2,right:v4}",
   "return",
   "endif",
-  "if(l_ty==Type::string())",
-  "self.binop_str(l,binop,r)",
+  "if",
+  "self.binop_str(v0,v6,v3)",
   "return",
   "endif",
-  "if(l_ty==Type::ip_addr())",
-  "self.binop_ip_addr(l,binop,r)",
+  "if",
+  "self.binop_ip_addr(v0,v6,v3)",
   "return",
   "endif",
-  "if(self.type_info.is_list_type(&l_ty))",
-  "self.binop_list(l_ty,l,binop,r)",
+  "if",
+  "self.binop_list(v2,v0,v6,v3)",
   "return",
   "endif",
-  "if(*binop==ast::BinOp::And)",
-  "self.binop_and(l,r)",
+  "if",
+  "self.binop_and(v0,v3)",
   "return",
   "endif",
-  "if(*binop==ast::BinOp::Or)",
-  "self.binop_or(l,r)",
+  "if",
+  "self.binop_or(v0,v3)",
   "return",
   "endif",
-  "self.expr(l)",
-  "self.assign_to_var(l,l_ty)",
-  "self.expr(r)",
-  "self.assign_to_var(r,r_ty)",
-  "Value::BinOp{left:l,binop:*binop,ty:l_ty,right:r}"
+  "self.expr(v0)",
+  "self.assign_to_var(v0,v2)",
+  "self.expr(v3)",
+  "self.assign_to_var(v3,v5)",
+  "Value::BinOp{left:v0,binop:*binop,ty:v2,right:v3}"
 ] := rfl
 
 /-- `normalizedFunctionCall`: the receiver is stored in its temporary first; then `arguments.iter()` (not reversed): each argument is lowered and stored before the next (`LowerS.lowerArgs`). -/
 theorem source_normalized_function_call : LowerOrder.normalizedFunctionCall = [
-  "if(letSome((receiver,ty))=receiver)",
+  "if",
   "self.undropped_tmp()",
-  "self.do_assign(Place::new(tmp.clone(),ty),ty,receiver)",
+  "self.do_assign(Place::new(tmp.clone(),ty),v0,v1)",
   "endif",
   "arguments.iter",
   "closure",
-  "self.expr(a)",
+  "self.expr(v2)",
   "self.undropped_tmp()",
-  "self.do_assign(Place::new(tmp.clone(),ty),ty,op)",
+  "self.do_assign(Place::new(tmp.clone(),ty),v0,v3)",
   "endclosure",
   "arguments.iter().map",
   "args.extend",
@@ -83,11 +85,11 @@ theorem source_normalized_function_call : LowerOrder.normalizedFunctionCall = [
   "….collect",
   "match(func.definition)",
   "arm(FunctionDefinition::Runtime(func_ref))",
-  "for(idxin&self.runtime.get_function(func_ref).vtables)",
+  "for(&self.runtime.get_function(func_ref).vtables)",
   "endfor",
-  "Value::CallRuntime{func_ref,args,mir_signature,vtables}",
+  "Value::CallRuntime{func_ref:v4,args:v5,mir_signature:v6,vtables:v7}",
   "arm(FunctionDefinition::Roto)",
-  "Value::Call{func:name,args,mir_signature}",
+  "Value::Call{func:v8,args:v5,mir_signature:v6}",
   "endmatch"
 ] := rfl
 
@@ -98,16 +100,16 @@ theorem source_function_call : LowerOrder.functionCall = [
   "match(resolved_path)",
   "arm(ResolvedPath::Method{value,signature,..})",
   "self.path_value(&value.clone())",
-  "self.normalized_function_call(&func,Some((op,ty)),arguments)",
+  "self.normalized_function_call(&v0,Some((op,ty)),v1)",
   "arm(ResolvedPath::Function{..}|ResolvedPath::StaticMethod{..})",
-  "self.normalized_function_call(&func,None,arguments)",
+  "self.normalized_function_call(&v0,None,v1)",
   "arm(ResolvedPath::EnumConstructor{ty:_,variant})",
-  "self.enum_constructor(ty,variant.name,arguments)",
+  "self.enum_constructor(v2,variant.name,v1)",
   "arm(ResolvedPath::Value{..})",
   "endmatch",
   "arm(ast::Expr::Access(e,_))",
-  "self.expr(e)",
-  "self.normalized_function_call(&func,Some((expr,ty)),arguments)",
+  "self.expr(v3)",
+  "self.normalized_function_call(&v0,Some((expr,ty)),v1)",
   "arm(_)",
   "endmatch"
 ] := rfl
@@ -115,14 +117,14 @@ theorem source_function_call : LowerOrder.functionCall = [
 /-- `shortcircuitBinop`: result temporary, left operand, store, switch, new block, right operand, store, jump (`LowerS.shortCircuit`). -/
 theorem source_shortcircuit_binop : LowerOrder.shortcircuitBinop = [
   "self.undropped_tmp()",
-  "self.expr(l)",
-  "self.do_assign(Place::new(tmp.clone(),TyRef::BOOL),TyRef::BOOL,val)",
+  "self.expr(v0)",
+  "self.do_assign(Place::new(tmp.clone(),TyRef::BOOL),TyRef::BOOL,v1)",
   "self.emit_switch(tmp.clone(),vec![(other_if,lbl_other)],Some(lbl_cont))",
-  "self.new_block(lbl_other)",
-  "self.expr(r)",
-  "self.do_assign(Place::new(tmp.clone(),TyRef::BOOL),TyRef::BOOL,val)",
-  "self.emit_jump(lbl_cont)",
-  "self.new_block(lbl_cont)"
+  "self.new_block(v2)",
+  "self.expr(v3)",
+  "self.do_assign(Place::new(tmp.clone(),TyRef::BOOL),TyRef::BOOL,v1)",
+  "self.emit_jump(v4)",
+  "self.new_block(v4)"
 ] := rfl
 
 /-- `compoundAssign`: `x op= e` becomes `Expr::BinOp(x, op, e)` — the target is the LEFT operand — assigned to `x` (`LowerS.lowerE`, case `.cassign`). -/
@@ -135,7 +137,7 @@ theorem source_compound_assign : LowerOrder.compoundAssign = [
   "arm(CompoundAssignOp::Mod)",
   "endmatch",
   "Expr::BinOp(Box::new(left),op,c.expr.clone())",
-  "self.assign(&c.path,&bin_expr)"
+  "self.assign(&c.path,&v0)"
 ] := rfl
 
 /-- `assign`: value lowered, stored in a fresh temporary, then moved into the variable. -/
@@ -145,108 +147,108 @@ theorem source_assign : LowerOrder.assign = [
   "endclosure",
   "fields.iter().map",
   "….collect",
-  "self.expr(expr)",
-  "self.tmp(ty)",
-  "self.do_assign(Place::new(tmp.clone(),ty),ty,val)",
-  "self.do_assign(place,ty,Value::Move(tmp))"
+  "self.expr(v0)",
+  "self.tmp(v1)",
+  "self.do_assign(Place::new(tmp.clone(),ty),v1,v2)",
+  "self.do_assign(v3,v1,Value::Move(tmp))"
 ] := rfl
 
 /-- `ifElse`: condition materialised; switch; then-block, result temporary allocated after it; else-block. -/
 theorem source_if_else : LowerOrder.ifElse = [
-  "self.expr(condition)",
-  "self.assign_to_var(examinee,TyRef::BOOL)",
-  "if(r#else.is_some())",
+  "self.expr(v0)",
+  "self.assign_to_var(v1,TyRef::BOOL)",
+  "if",
   "else",
   "endif",
-  "self.emit_switch(examinee,branches,Some(ifr#else.is_some(){lbl_else}else{lbl_cont}))",
-  "self.new_block(lbl_then)",
-  "self.block(then)",
+  "self.emit_switch(v1,v2,Some(ifr#else.is_some(){lbl_else}else{lbl_cont}))",
+  "self.new_block(v3)",
+  "self.block(v4)",
   "self.undropped_tmp()",
-  "self.emit_assign(Place::new(res.clone(),ty),ty,op)",
-  "self.emit_jump(lbl_cont)",
-  "if(letSome(r#else)=r#else)",
-  "self.new_block(lbl_else)",
+  "self.emit_assign(Place::new(res.clone(),ty),v5,v6)",
+  "self.emit_jump(v7)",
+  "if",
+  "self.new_block(v8)",
   "self.block(r#else)",
-  "self.emit_assign(Place::new(res.clone(),ty),ty,op)",
-  "self.emit_jump(lbl_cont)",
+  "self.emit_assign(Place::new(res.clone(),ty),v5,v6)",
+  "self.emit_jump(v7)",
   "endif",
-  "self.new_block(lbl_cont)"
+  "self.new_block(v7)"
 ] := rfl
 
 /-- `whileLoop`: jump to the condition block; examinee temporary; condition lowered and stored on every iteration; switch; body; jump back. -/
 theorem source_while_loop : LowerOrder.whileLoop = [
-  "self.emit_jump(lbl_condition)",
-  "self.new_block(lbl_condition)",
+  "self.emit_jump(v0)",
+  "self.new_block(v0)",
   "self.undropped_tmp()",
-  "self.expr(condition)",
-  "self.do_assign(Place::new(examinee.clone(),TyRef::BOOL),TyRef::BOOL,val)",
-  "self.emit_switch(examinee,vec![(1,lbl_body)],Some(lbl_cont))",
-  "self.new_block(lbl_body)",
-  "self.block(block)",
-  "self.assign_to_var(val,TyRef::UNIT)",
-  "self.emit_jump(lbl_condition)",
-  "self.new_block(lbl_cont)"
+  "self.expr(v1)",
+  "self.do_assign(Place::new(examinee.clone(),TyRef::BOOL),TyRef::BOOL,v2)",
+  "self.emit_switch(v3,vec![(1,lbl_body)],Some(lbl_cont))",
+  "self.new_block(v4)",
+  "self.block(v5)",
+  "self.assign_to_var(v2,TyRef::UNIT)",
+  "self.emit_jump(v0)",
+  "self.new_block(v6)"
 ] := rfl
 
 /-- `forLoop`: the list expression is lowered once, before the loop; `get(idx)` per iteration. -/
 theorem source_for_loop : LowerOrder.forLoop = [
   "self.undropped_tmp()",
-  "self.expr(expr)",
-  "self.assign_to_var(list_value,list_ty)",
+  "self.expr(v0)",
+  "self.assign_to_var(v1,v2)",
   "self.assign_to_var(Value::Const(Literal::Integer(0,Some(IntType::U64)),TyRef::U64),TyRef::U64)",
-  "self.emit_jump(lbl_condition)",
-  "self.new_block(lbl_increment)",
+  "self.emit_jump(v3)",
+  "self.new_block(v4)",
   "self.assign_to_var(Value::Const(Literal::Integer(1,Some(IntType::U64)),TyRef::U64,),TyRef::U64)",
   "Value::BinOp{left:index_var.clone(),binop:ast::BinOp::Add,ty:TyRef::U64,right:one_var.clone()}",
-  "self.emit_assign(Place::new(index_var.clone(),TyRef::U64),TyRef::U64,new_index)",
-  "self.emit_jump(lbl_condition)",
-  "self.new_block(lbl_condition)",
+  "self.emit_assign(Place::new(index_var.clone(),TyRef::U64),TyRef::U64,v5)",
+  "self.emit_jump(v3)",
+  "self.new_block(v3)",
   "self.find_method(TypeId::of::<ErasedList>(),\"get\")",
-  "self.assign_to_var(Value::Clone(Place::new(list_var,list_ty)),list_ty)",
-  "Value::CallRuntime{func_ref,args:vec![new_list_var,index_var],mir_signature,vtables:Vec::new()}",
+  "self.assign_to_var(Value::Clone(Place::new(list_var,list_ty)),v2)",
+  "Value::CallRuntime{func_ref:v6,args:vec![new_list_var,index_var],mir_signature:v7,vtables:Vec::new()}",
   "self.emit(Instruction::Assign{to:Place::new(opt_elem_var.clone(),opt_elem_ty),ty…)",
   "self.undropped_tmp()",
   "self.emit_assign(Place::new(discriminant.clone(),TyRef::U8),TyRef::U8,Value::Discriminant(opt_elem_var.clone()))",
-  "self.emit_switch(discriminant,vec![(0,lbl_body)],Some(lbl_cont))",
-  "self.new_block(lbl_body)",
-  "self.do_assign(Place::new(elem_var,elem_ty),elem_ty,Value::Clone(Place{var:opt_elem_var,root_ty:opt_elem_ty,projection:vec…)",
-  "self.block(body)",
-  "self.assign_to_var(val,TyRef::UNIT)",
-  "self.emit_jump(lbl_increment)",
-  "self.new_block(lbl_cont)"
+  "self.emit_switch(v8,vec![(0,lbl_body)],Some(lbl_cont))",
+  "self.new_block(v9)",
+  "self.do_assign(Place::new(elem_var,elem_ty),v10,Value::Clone(Place{var:opt_elem_var,root_ty:opt_elem_ty,projection:vec…)",
+  "self.block(v11)",
+  "self.assign_to_var(v12,TyRef::UNIT)",
+  "self.emit_jump(v4)",
+  "self.new_block(v13)"
 ] := rfl
 
 /-- `block`: statements in order, then the final expression, materialised. -/
 theorem source_block : LowerOrder.block = [
-  "for(stmtin&block.stmts)",
-  "self.stmt(stmt)",
+  "for(&block.stmts)",
+  "self.stmt(v0)",
   "endfor",
   "match(&block.last)",
   "arm(Some(expr))",
-  "self.expr(expr)",
+  "self.expr(v1)",
   "arm(None)",
   "endmatch",
-  "self.assign_to_var(op.clone(),ty)",
-  "if(!self.type_info.diverges(block))",
+  "self.assign_to_var(op.clone(),v2)",
+  "if",
   "endif"
 ] := rfl
 
 /-- `blockExpr`: `block`, then the result copied into a fresh temporary. -/
 theorem source_block_expr : LowerOrder.blockExpr = [
-  "self.block(block)",
+  "self.block(v0)",
   "self.undropped_tmp()",
-  "self.emit_assign(Place::new(res.clone(),ty),ty,val)"
+  "self.emit_assign(Place::new(res.clone(),ty),v1,v2)"
 ] := rfl
 
 /-- `stmt`: `let`: value lowered then assigned to the variable; expression statement: lowered, materialised, dropped. -/
 theorem source_stmt : LowerOrder.stmt = [
   "match(&**stmt)",
   "arm(ast::Stmt::Let(ident,_,expr))",
-  "self.expr(expr)",
-  "self.do_assign(Place::new(to,ty),ty,val)",
+  "self.expr(v0)",
+  "self.do_assign(Place::new(to,ty),v1,v2)",
   "arm(ast::Stmt::Expr(expr))",
-  "self.expr(expr)",
-  "self.assign_to_var(value,ty)",
+  "self.expr(v0)",
+  "self.assign_to_var(v3,v1)",
   "endmatch"
 ] := rfl
 
@@ -254,81 +256,81 @@ theorem source_stmt : LowerOrder.stmt = [
 theorem source_return_expr : LowerOrder.returnExpr = [
   "match(expr)",
   "arm(Some(expr))",
-  "self.expr(expr)",
+  "self.expr(v0)",
   "arm(None)",
   "endmatch",
   "match(return_kind)",
   "arm(ast::ReturnKind::Return)",
   "self.return_value(val.0)",
   "arm(ast::ReturnKind::Accept)",
-  "self.make_enum(ty,\"Accept\".into(),&[val])",
-  "self.return_value(val)",
+  "self.make_enum(v1,\"Accept\".into(),&[val])",
+  "self.return_value(v2)",
   "arm(ast::ReturnKind::Reject)",
-  "self.make_enum(ty,\"Reject\".into(),&[val])",
-  "self.return_value(val)",
+  "self.make_enum(v1,\"Reject\".into(),&[val])",
+  "self.return_value(v2)",
   "endmatch"
 ] := rfl
 
 /-- `returnValue`: value materialised, then `return`. -/
 theorem source_return_value : LowerOrder.returnValue = [
-  "self.assign_to_var(val,self.return_type)",
-  "self.emit_return(var)"
+  "self.assign_to_var(v0,self.return_type)",
+  "self.emit_return(v1)"
 ] := rfl
 
 /-- `questionMark`: operand lowered and materialised, discriminant read, switch to the return-None block. -/
 theorem source_question_mark : LowerOrder.questionMark = [
-  "self.expr(expr)",
-  "self.assign_to_var(examinee,examinee_ty)",
+  "self.expr(v0)",
+  "self.assign_to_var(v1,v2)",
   "self.undropped_tmp()",
   "self.emit_assign(Place::new(discriminant.clone(),TyRef::U8),TyRef::U8,Value::Discriminant(examinee.clone()))",
-  "self.emit_switch(discriminant,vec![(0,continue_lbl)],Some(lbl_return_none))",
-  "self.new_block(lbl_return_none)",
-  "self.make_enum(ty,\"None\".into(),&[])",
-  "self.return_value(val)",
-  "self.new_block(continue_lbl)"
+  "self.emit_switch(v3,vec![(0,continue_lbl)],Some(lbl_return_none))",
+  "self.new_block(v4)",
+  "self.make_enum(v5,\"None\".into(),&[])",
+  "self.return_value(v6)",
+  "self.new_block(v7)"
 ] := rfl
 
 /-- `notExpr`: operand lowered and materialised. -/
 theorem source_not_expr : LowerOrder.notExpr = [
-  "self.expr(expr)",
-  "self.assign_to_var(val,TyRef::BOOL)"
+  "self.expr(v0)",
+  "self.assign_to_var(v1,TyRef::BOOL)"
 ] := rfl
 
 /-- `negate`: operand lowered and materialised. -/
 theorem source_negate : LowerOrder.negate = [
-  "self.expr(expr)",
-  "self.assign_to_var(val,ty)"
+  "self.expr(v0)",
+  "self.assign_to_var(v1,v2)"
 ] := rfl
 
 /-- `access`: the record expression is lowered and materialised before the field is read. -/
 theorem source_access : LowerOrder.access = [
-  "self.expr(expr)",
-  "self.assign_to_var(op,ty)"
+  "self.expr(v0)",
+  "self.assign_to_var(v1,v2)"
 ] := rfl
 
 /-- `record`: `for (s, expr) in &record.fields` (source order): each field lowered and stored before the next. -/
 theorem source_record : LowerOrder.record = [
-  "self.tmp(ty)",
-  "for((s,expr)in&record.fields)",
-  "self.expr(expr)",
-  "self.do_assign(Place{var:to.clone(),root_ty:ty,projection:vec![Projection::Field(**s)…,field_ty,op)",
+  "self.tmp(v0)",
+  "for(&record.fields)",
+  "self.expr(v1)",
+  "self.do_assign(Place{var:to.clone(),root_ty:ty,projection:vec![Projection::Field(**s)…,v2,v3)",
   "endfor"
 ] := rfl
 
 /-- `list`: `for expr in list` (source order): each element lowered, stored, pushed before the next. -/
 theorem source_list : LowerOrder.list = [
-  "self.tmp(ty)",
+  "self.tmp(v0)",
   "self.find_method(TypeId::of::<ErasedList>(),\"new\")",
-  "Value::CallRuntime{func_ref,args:Vec::new(),mir_signature:ty::Signature{parameter_types:Vec::new(),return_type:ty,…,vtables:vec![inner]}",
+  "Value::CallRuntime{func_ref:v1,args:Vec::new(),mir_signature:ty::Signature{parameter_types:Vec::new(),return_type:ty,},vtables:vec![inner]}",
   "self.emit(Instruction::Assign{to:Place{var:tmp.clone(),root_ty:ty,projection:Vec…)",
   "self.tmp(TyRef::UNIT)",
-  "for(exprinlist)",
-  "self.assign_to_var(list_var,ty)",
-  "self.expr(expr)",
+  "for(list)",
+  "self.assign_to_var(v2,v0)",
+  "self.expr(v3)",
   "self.undropped_tmp()",
-  "self.do_assign(Place::new(elem_var.clone(),elem_ty),elem_ty,elem)",
+  "self.do_assign(Place::new(elem_var.clone(),elem_ty),v4,v5)",
   "self.find_method(TypeId::of::<ErasedList>(),\"push\")",
-  "Value::CallRuntime{func_ref,args:vec![list_var,elem_var],mir_signature:ty::Signature{parameter_types:vec![ty,inner],return_type…,vtables:Vec::new()}",
+  "Value::CallRuntime{func_ref:v1,args:vec![list_var,elem_var],mir_signature:ty::Signature{parameter_types:vec![ty,inner],return_type:TyRef::UNIT,},vtables:Vec::new()}",
   "self.emit(Instruction::Assign{to:Place{var:unit_tmp.clone(),root_ty:TyRef::UNIT,…)",
   "endfor"
 ] := rfl
@@ -337,12 +339,12 @@ theorem source_list : LowerOrder.list = [
 theorem source_enum_constructor : LowerOrder.enumConstructor = [
   "arguments.iter",
   "closure",
-  "self.expr(a)",
-  "self.assign_to_var(val,ty)",
+  "self.expr(v0)",
+  "self.assign_to_var(v1,v2)",
   "endclosure",
   "arguments.iter().map",
   "….collect",
-  "self.make_enum(ty,variant,&arguments)"
+  "self.make_enum(v2,v3,&v4)"
 ] := rfl
 
 /-- `makeEnum`: discriminant set, then the fields assigned in order. -/
@@ -350,11 +352,11 @@ theorem source_make_enum : LowerOrder.makeEnum = [
   "variants.iter",
   "closure",
   "endclosure",
-  "self.tmp(ty)",
-  "self.emit_set_discriminant(to.clone(),ty,variant_name)",
+  "self.tmp(v0)",
+  "self.emit_set_discriminant(to.clone(),v0,v1)",
   "arguments.iter",
   "arguments.iter().enumerate",
-  "for((i,(value,field_ty))inarguments.iter().enumerate())",
+  "for(arguments.iter().enumerate())",
   "self.do_assign(Place{var:to.clone(),root_ty:ty,projection:vec![Projection::VariantFie…,*field_ty,value.clone())",
   "endfor"
 ] := rfl
@@ -363,52 +365,52 @@ theorem source_make_enum : LowerOrder.makeEnum = [
 theorem source_f_string : LowerOrder.fString = [
   "closure",
   "endclosure",
-  "self.assign_to_var(string_val,TyRef::STRING)",
-  "self.find_method(type_id,\"append\")",
-  "for(partinparts)",
+  "self.assign_to_var(v0,TyRef::STRING)",
+  "self.find_method(v1,\"append\")",
+  "for(parts)",
   "match(&part.node)",
   "arm(ast::FStringPart::String(s))",
   "arm(ast::FStringPart::Expr(expr))",
-  "self.expr(expr)",
-  "self.normalized_function_call(&func,Some((val,ty)),&[])",
+  "self.expr(v2)",
+  "self.normalized_function_call(&v3,Some((val,ty)),&[])",
   "endmatch",
-  "self.assign_to_var(new_string,TyRef::STRING)",
-  "self.call_runtime(func_ref,Vec::new(),mir_signature,vec![string.clone(),new_string])",
-  "self.do_assign(Place::new(string.clone(),TyRef::STRING),TyRef::STRING,val)",
+  "self.assign_to_var(v4,TyRef::STRING)",
+  "self.call_runtime(v5,Vec::new(),v6,vec![string.clone(),new_string])",
+  "self.do_assign(Place::new(string.clone(),TyRef::STRING),TyRef::STRING,v7)",
   "endfor"
 ] := rfl
 
 /-- `assignToVar`: a `Move` is used as is, anything else is stored in a fresh temporary (`LowerS.atvCode/atvVar/atvNext`). -/
 theorem source_assign_to_var : LowerOrder.assignToVar = [
-  "if(letValue::Move(x)=value)",
+  "if",
   "return",
   "endif",
-  "self.tmp(ty)",
-  "self.do_assign(Place::new(to.clone(),ty),ty,value)"
+  "self.tmp(v0)",
+  "self.do_assign(Place::new(to.clone(),ty),v0,v1)"
 ] := rfl
 
 /-- `doAssign`: emits the assignment at once. -/
 theorem source_do_assign : LowerOrder.doAssign = [
-  "if(letValue::Move(var)=&val)",
+  "if",
   "endif",
-  "self.emit_assign(to,ty,val)"
+  "self.emit_assign(v0,v1,v2)"
 ] := rfl
 
 /-- `functionLike`: the body block, its value materialised, `return` (`LowerS.lowerFn`). -/
 theorem source_function_like : LowerOrder.functionLike = [
-  "self.new_block(label)",
-  "for((x,_)in&params.0)",
+  "self.new_block(v0)",
+  "for(&params.0)",
   "endfor",
-  "for((name,ty)in&parameter_types)",
+  "for(&parameter_types)",
   "endfor",
   "parameter_types.iter",
   "closure",
   "endclosure",
   "parameter_types.iter().map",
   "….collect",
-  "self.block(body)",
-  "self.assign_to_var(last,return_type)",
-  "self.emit_return(tmp)"
+  "self.block(v1)",
+  "self.assign_to_var(v2,v3)",
+  "self.emit_return(v4)"
 ] := rfl
 
 /-- `matchExpr`: the examinee is lowered and materialised once; one guard chain per discriminant containing that variant's arms and the `_` arms in source order; arm bodies afterwards. -/
@@ -446,100 +448,100 @@ theorem source_match_expr : LowerOrder.matchExpr = [
   "endclosure",
   "branches.iter().filter",
   "….collect",
-  "self.expr(expr)",
-  "self.assign_to_var(examinee,examinee_ty_ref)",
+  "self.expr(v0)",
+  "self.assign_to_var(v1,v2)",
   "self.undropped_tmp()",
   "self.emit_assign(Place::new(discriminant.clone(),TyRef::U8),TyRef::U8,Value::Discriminant(examinee.clone()))",
-  "if(needs_default)",
+  "if",
   "else",
   "endif",
-  "self.emit_switch(discriminant,switch_branches,default_branch)",
+  "self.emit_switch(v3,v4,v5)",
   "branches.iter",
   "closure",
   "endclosure",
   "branches.iter().map",
   "….collect",
-  "for((discriminant,lbl)inall_discriminants)",
+  "for(all_discriminants)",
   "branches.iter",
   "closure",
   "endclosure",
   "branches.iter().filter",
   "….collect",
-  "self.match_case(examinee.clone(),examinee_ty_ref,Some(&variants[discriminant]),lbl,&branches,&arm_labels)",
+  "self.match_case(examinee.clone(),v2,Some(&variants[discriminant]),v6,&v7,&v8)",
   "endfor",
-  "if(needs_default)",
-  "self.match_case(examinee,examinee_ty_ref,None,default_lbl,&default_branches,&arm_labels)",
+  "if",
+  "self.match_case(v1,v2,None,v9,&v10,&v8)",
   "endif",
   "self.undropped_tmp()",
-  "for((discriminant,arm,arm_index)inbranches)",
-  "if(letPattern::EnumVariant{variant:_,fields:Some(fields),}=&arm.pattern.n…)",
+  "for(branches)",
+  "if",
   "fields.iter",
   "fields.iter().zip",
-  "for((field_binding,&field_ty)infields.iter().zip(&variant.1))",
+  "for(fields.iter().zip(&variant.1))",
   "endfor",
   "endif",
   "self.new_block(arm_labels[&arm_index])",
   "self.block(&arm.body)",
-  "self.emit_assign(Place::new(out.clone(),ty),ty,val)",
-  "self.emit_jump(continue_lbl)",
+  "self.emit_assign(Place::new(out.clone(),ty),v11,v12)",
+  "self.emit_jump(v13)",
   "endfor",
-  "self.new_block(continue_lbl)"
+  "self.new_block(v13)"
 ] := rfl
 
 /-- `matchCase`: per chain: for each arm in order, bind the fields, then the guard (lowered, materialised, switch to the arm / to the next guard). -/
 theorem source_match_case : LowerOrder.matchCase = [
-  "self.new_block(lbl)",
-  "self.emit_jump(guard_lbl)",
+  "self.new_block(v0)",
+  "self.emit_jump(v1)",
   "branches.iter",
   "branches.iter().enumerate",
-  "for((i,(_,arm,arm_index))inbranches.iter().enumerate())",
-  "self.new_block(guard_lbl)",
-  "if(letPattern::EnumVariant{fields:Some(fields),variant:_,}=&arm.pattern.n…)",
+  "for(branches.iter().enumerate())",
+  "self.new_block(v1)",
+  "if",
   "fields.iter",
   "fields.iter().zip",
   "fields.iter().zip(&variant.1).enumerate",
-  "for((i,(field_binding,&field_ty))infields.iter().zip(&variant.1).enumerate())",
-  "self.do_assign(Place::new(var,field_ty),field_ty,Value::Clone(Place{var:examinee.clone(),root_ty:examinee_ty,projection…)",
+  "for(fields.iter().zip(&variant.1).enumerate())",
+  "self.do_assign(Place::new(var,field_ty),v2,Value::Clone(Place{var:examinee.clone(),root_ty:examinee_ty,projection…)",
   "endfor",
   "endif",
-  "if(letSome(guard)=&arm.guard)",
-  "self.expr(guard)",
-  "self.assign_to_var(op,TyRef::BOOL)",
-  "self.emit_switch(op,vec![(1,arm_lbl)],Some(intermediate_lbl))",
-  "self.new_block(intermediate_lbl)",
-  "self.emit_jump(next_lbl)",
+  "if",
+  "self.expr(v3)",
+  "self.assign_to_var(v4,TyRef::BOOL)",
+  "self.emit_switch(v4,vec![(1,arm_lbl)],Some(intermediate_lbl))",
+  "self.new_block(v5)",
+  "self.emit_jump(v6)",
   "else",
-  "self.emit_jump(arm_lbl)",
+  "self.emit_jump(v7)",
   "endif",
   "endfor"
 ] := rfl
 
 /-- `desugaredBinop`: `l + r` on strings / lists, `ip / len`: left lowered and materialised, right lowered and materialised, result temporary, the runtime call stored at once (`LowerS.lowerE`, case `.concat`). -/
 theorem source_desugared_binop : LowerOrder.desugaredBinop = [
-  "self.find_method(kind,name)",
-  "self.expr(l)",
-  "self.assign_to_var(l,l_ty)",
-  "self.expr(r)",
-  "self.assign_to_var(r,r_ty)",
-  "self.tmp(return_type)",
-  "self.call_runtime(func_ref,Vec::new(),mir_signature,vec![l,r])",
-  "self.do_assign(Place::new(tmp.clone(),return_type),return_type,val)"
+  "self.find_method(v0,v1)",
+  "self.expr(v2)",
+  "self.assign_to_var(v2,v3)",
+  "self.expr(v4)",
+  "self.assign_to_var(v4,v5)",
+  "self.tmp(v6)",
+  "self.call_runtime(v7,Vec::new(),v8,vec![l,r])",
+  "self.do_assign(Place::new(tmp.clone(),return_type),v6,v9)"
 ] := rfl
 
 /-- `binopStr`: `+` on strings is `desugared_binop(append)`. -/
 theorem source_binop_str : LowerOrder.binopStr = [
   "match(binop)",
   "arm(ast::BinOp::Add)",
-  "self.desugared_binop(type_id,\"append\",Type::string(),(l,Type::string()),(r,Type::string()))",
+  "self.desugared_binop(v0,\"append\",Type::string(),(l,Type::string()),(r,Type::string()))",
   "arm(_)",
   "endmatch"
 ] := rfl
 
 /-- `callRuntime`: builds the lazy `Value::CallRuntime` over already materialised arguments. -/
 theorem source_call_runtime : LowerOrder.callRuntime = [
-  "for(varin&args)",
+  "for(&args)",
   "endfor",
-  "Value::CallRuntime{func_ref,args,mir_signature,vtables}"
+  "Value::CallRuntime{func_ref:v0,args:v1,mir_signature:v2,vtables:v3}"
 ] := rfl
 
 end RotoV.C08Source
